@@ -135,6 +135,22 @@ def str_enum_member(value: str):
 SUBCLASS_KINDS = ['str-sub', 'str-enum', 'bytes-sub', 'bytearray-sub', 'list-sub', 'tuple-sub', 'memoryview-ro', 'frozenbitarray']
 
 
+class OperandFailure(Exception):
+    """Raised by a FailingIter operand after its last item: the caller's own error, which must come out unchanged."""
+
+
+class FailingIter:
+    """An iterable operand that yields its items and then fails (a generator reading from a source that breaks)."""
+
+    def __init__(self, bits: str):
+        self.bits = bits
+
+    def __iter__(self):
+        for ch in self.bits:
+            yield int(ch)
+        raise OperandFailure('the iterable failed after its last item')
+
+
 def truthy_items(bits: str):
     return [(_TRUTHY if ch == '1' else _FALSY)[i % 10] for i, ch in enumerate(bits)]
 
@@ -171,6 +187,8 @@ def build_operand(spec, receiver=None):
         return TupleSub(c == '1' for c in bits)
     if k == 'frozenbitarray':
         return bitarray.frozenbitarray(bits)
+    if k == 'failing-iter':
+        return FailingIter(bits)
     if k == 'truthy':               # arbitrary objects: an iterable is promoted item by item through bool()
         return truthy_items(bits)
     if k == 'truthy-iter':          # ... and handed over as an iterator that can be consumed once only
@@ -199,7 +217,7 @@ def call(f):
 
 
 def exc_class(name: str):
-    return getattr(bitstring, name, None) or getattr(builtins, name)
+    return getattr(bitstring, name, None) or globals().get(name) or getattr(builtins, name)
 
 
 def exc_matches(e: BaseException, names) -> bool:
